@@ -11,6 +11,13 @@ for f in sorted(os.listdir(src)):
     spec = importlib.util.spec_from_file_location(f[:-3], os.path.join(src, f))
     mod = importlib.util.module_from_spec(spec)
     spec.loader.exec_module(mod)
+    extra_dir = os.path.join(os.path.dirname(here), "checker", "props", f[:-3])
+    entries = list(mod.ENTRIES)
+    if os.path.isdir(extra_dir):
+        for g in sorted(os.listdir(extra_dir)):
+            if g.endswith("_mutants.json"):
+                entries += json.load(open(os.path.join(extra_dir, g)))
+    mod.ENTRIES = entries
     names = [e["name"] for e in mod.ENTRIES]
     assert len(names) == len(set(names)), "duplicate names in " + f
     with open(os.path.join(dst, f[:-3] + ".json"), "w") as out:
